@@ -89,6 +89,14 @@ func (m *Module) WriteTo(w io.Writer) (n int64, err error) {
 	if err := m.AssignMetadataIDs(); err != nil {
 		panic(fmt.Errorf("unable to assign metadata IDs of module; %v", err))
 	}
+	// Assign local IDs of all functions before anything is printed; constants
+	// printed ahead of the function bodies (e.g. blockaddress in a global
+	// initializer) refer to basic blocks by local ID.
+	for _, f := range m.Funcs {
+		if err := f.assignIDs(true); err != nil {
+			panic(fmt.Errorf("unable to assign IDs of function %q; %v", f.Ident(), err))
+		}
+	}
 	// Source filename.
 	if len(m.SourceFilename) > 0 {
 		// 'source_filename' '=' Name=StringLit
